@@ -51,7 +51,10 @@ func workload(seed int64, udp bool) scenario {
 	sc.Steps = append(sc.Steps, scnStep{Op: "cmd", Conn: "sessionless", Cmd: scnCmd{Name: "authcaps", P: []int64{1, 14, 4}}, Script: scripts[rng.Intn(len(scripts))]})
 	for round := 0; round < 1+rng.Intn(2); round++ {
 		var offered [][]int
-		switch rng.Intn(3) {
+		shared := false
+		switch rng.Intn(4) {
+		case 3:
+			shared = true // one process-wide preference slice, passed by every goroutine (2/4/1 - offered by no BMC -, then 17, then 3)
 		case 0:
 			offered = [][]int{su}
 		case 1:
@@ -59,7 +62,7 @@ func workload(seed int64, udp bool) scenario {
 		default:
 			offered = nil // the library's defaults (17, then 3), with discovery
 		}
-		sc.Steps = append(sc.Steps, scnStep{Op: "open", User: "admin", Password: pw, Priv: 4, Lookup: true, Suites: offered})
+		sc.Steps = append(sc.Steps, scnStep{Op: "open", User: "admin", Password: pw, Priv: 4, Lookup: true, Suites: offered, SharedPrefs: shared})
 		for i := 0; i < 3+rng.Intn(8); i++ {
 			c := cmds[rng.Intn(len(cmds))]
 			sc.Steps = append(sc.Steps, scnStep{Op: "cmd", Conn: "session", Cmd: c, Script: scripts[rng.Intn(len(scripts))]})
